@@ -52,6 +52,7 @@ DUMP_SLICES = {
               ('sources-json', 'json', 'Dom_sources', 'KeepAll', 500),
               ('dest-json', 'json', 'Dom_dest', 'Keep_dest_q', 500),
               ('null', 'null', 'Dom_null', 'KeepAll', 250),
+              ('stub-json', 'json', 'Dom_stub', 'KeepAll', 300), ('stub-pysnmp', 'pysnmp', 'Dom_stub', 'KeepAll', 150),
               ('report-pysnmp', 'pysnmp', 'Dom_report', 'Keep_report_q', 300)],
     'thorough': [('usage-json', 'json', 'Dom_usage', 'KeepAll', None), ('usage-pysnmp', 'pysnmp', 'Dom_usage', 'KeepAll', None),
                  ('status-json', 'json', 'Dom_status', 'KeepAll', None),
@@ -61,6 +62,7 @@ DUMP_SLICES = {
                  ('dest-json', 'json', 'Dom_dest', 'KeepAll', None),
                  ('dest-pysnmp', 'pysnmp', 'Dom_dest', 'Keep_dest_q', 3000),
                  ('null', 'null', 'Dom_null', 'KeepAll', None),
+                 ('stub-json', 'json', 'Dom_stub', 'KeepAll', None), ('stub-pysnmp', 'pysnmp', 'Dom_stub', 'KeepAll', None),
                  ('report-pysnmp', 'pysnmp', 'Dom_report', 'KeepAll', None),
                  ('status-pysnmp', 'pysnmp', 'Dom_status', 'Keep_status_q', 4000)],
 }
@@ -149,6 +151,8 @@ def materialise(w, fmt, root):
                       ('quiet', '--quiet')):
         if w[flag]:
             argv.append(opt)
+    if w.get('stubB'):
+        argv.append('--mib-stub=BB-MIB')
     if w['usage'] == 'help':
         argv.append('--help')
     elif w['usage'] == 'badOpt':
@@ -210,7 +214,7 @@ def _dump_job(job):
 
 
 def brief_world(w, fmt):
-    flags = (['dst-is-a-file'] if w.get('dstKind') == 'file' else []) + (['B-in-subdir'] if w.get('sub') else []) + [k for k in ('noDeps', 'rebuild', 'ignoreErrors', 'noWrites', 'dryRun', 'buildIndex', 'quiet', 'alias') if w[k]]
+    flags = (['dst-is-a-file'] if w.get('dstKind') == 'file' else []) + (['B-in-subdir'] if w.get('sub') else []) + (['stub=BB-MIB'] if w.get('stubB') else []) + [k for k in ('noDeps', 'rebuild', 'ignoreErrors', 'noWrites', 'dryRun', 'buildIndex', 'quiet', 'alias') if w[k]]
     return '%s req=%s%s src=%s+%s/%s imp=%s%s dst=%s/%s bor=%d%d base=%d texts=%s usage=%s %s' % (
         fmt, ','.join(w['req']), '(paths)' if w.get('reqForm') == 'path' else '', w['srcA'], w['src2A'], w['srcB'], w['imp'], '~' if w.get('spell') == 'variant' else '', w['dstA'], w['dstB'], w['borA'], w['borB'], w['base'],
         w['texts'], w['usage'], '+'.join(flags))
